@@ -199,9 +199,9 @@ def _reset(root: Path, script: str, backend: str, cfg: Dict[str, Any]):
     for f in PKG_FILES[backend]:
         _write(root / "scripts" / f, pkg_content(f))
     loc = cfg.get("filelist", "dir")
-    if loc == "dir":
+    if loc in ("dir", "both"):
         _write(root / "scripts" / "filelist.txt", FILELIST)
-    elif loc == "local":
+    if loc in ("local", "both"):
         _write(root / "work" / "filelist.txt", FILELIST)
     if cfg.get("release_setup", True):
         _write(root / "home/atlas/release_setup.sh", ". /stubs/src_release.sh\n")
